@@ -3,6 +3,8 @@
      crc    {msg, cuts, impl, partial:[limbs...], sum}   a digest fed msg in chunks ending at `cuts`; the register after
                                                          every chunk and at the end
      ref    {msg, sum}                                   the harness's own bit-serial Go CRC (lifted oracle) on msg
+     bigcrc {impl, n, cuts, ok}                          an n-byte message (up to 1 MiB) fed in the given chunks: ok = the register equals
+                                                         the lifted oracle after every write
      fault  {verifier, class, accepted}                  a verifier's answer for an artefact with a fault of that class  *)
 EXTENDS Crc, TLC, Json
 VARIABLES l, bad
@@ -11,6 +13,7 @@ CrcOK(ev) == /\ ev.sum = Crc64(ev.msg)
              /\ \A i \in 1..Len(ev.cuts) : ev.partial[i] = Crc64(SubSeq(ev.msg, 1, ev.cuts[i]))
 EventOK(ev) == CASE ev.e = "crc"   -> CrcOK(ev)
                  [] ev.e = "ref"   -> ev.sum = Crc64(ev.msg)
+                 [] ev.e = "bigcrc" -> ev.ok          \* long messages / large single writes: register = the lifted reference after every write
                  [] ev.e = "fault" -> (IF ev.accepted THEN "accept" ELSE "reject") = Expected(ev.verifier, ev.class)
                  [] ev.e = "note"  -> TRUE
 TInit == l = 1 /\ bad = 0
